@@ -172,6 +172,9 @@ def apply_contract(interp, c, func, args, kwargs):
     if c.event is not None:
         st.emit((c.event[0] if isinstance(c.event, tuple) else c.event) + ':returned', result)
     env2 = _clause_env(bound, ghosts, {'result': result, 'old': old, 'trace': st.trace, 'ghost': st.ghost})
+    n_pc = len(st.pc)
+    n_dec0 = len(st.decisions)
+    feasible_before = (c.modifies is not None or callable(c.returns)) and st.check() == z3.sat
     for name, clause in c.ensures.items():
         if isinstance(clause, tuple) and callable(clause[1]):
             # (clause, when): proved of the function, but assumed at a call site only where
@@ -194,6 +197,13 @@ def apply_contract(interp, c, func, args, kwargs):
             raise Unsupported('call of %s through its contract in %s: ensures[%s] is false after the frame havoc '
                               '(use inline=True or a frame that can produce the promised state)'
                               % (c.qname, caller, name))
+    if feasible_before and len(st.decisions) == n_dec0 and len(st.pc) > n_pc and st.check() == z3.unsat:
+        # The path was satisfiable, the frame was havocked, and the postcondition -- without any case split
+        # that could have ruled out an alternative -- made it unsatisfiable: the havoc cannot produce a state the
+        # postcondition describes (typically: it promises the identity of an object that the havoc re-created).
+        # Everything after this call would be "proved" vacuously.
+        raise Unsupported('call of %s through its contract in %s: the postcondition cannot be satisfied by the '
+                          'state after the frame havoc (vacuous continuation)' % (c.qname, caller))
     return result
 
 
@@ -342,6 +352,7 @@ def verify_function(reg, c, budget_paths=MAX_PATHS):
     rep.sha = info.source_sha
     worklist = [[]]
     seen = 0
+    reached = set()
     while worklist:
         prefix = worklist.pop()
         seen += 1
@@ -352,9 +363,11 @@ def verify_function(reg, c, budget_paths=MAX_PATHS):
         st = PathState(prefix, stats)
         interp = Interp(st, reg)
         interp.fn_name = c.qname
+        interp.cover_node = info.node
         try:
             _run_path(interp, reg, c, func, rep)
             rep.paths += 1
+            reached |= st.reached      # (the path is satisfiable: _run_path ends with the vacuity guard)
         except PathAbort:
             rep.aborted_paths += 1
         except RetryPath as r:
@@ -383,6 +396,21 @@ def verify_function(reg, c, budget_paths=MAX_PATHS):
         rep.unknown_feasibility += st.unknown_feasibility
         rep.feasibility_queries += stats.get('feasibility_queries', 0)
         rep.slow_queries.extend(stats.get('slow_queries', []))
+    # Reachability cover (guard against vacuous proofs): every `return` / `raise` statement of the function
+    # must be reached by at least one satisfiable path.  One that is not means that the assumptions (precondition,
+    # postconditions of callees after a havoc, loop invariants) exclude the situations in which it executes --
+    # whatever is "proved" about them is empty.  `cover=False` on the contract switches the guard off; `cover=(n,..)`
+    # lists line numbers (relative to the `def` line) that are known to be unreachable under the precondition.
+    if c.cover and not rep.unsupported and not rep.errors:
+        import ast as _ast
+        from .loops import _walk_own
+        allowed = set(c.cover) if isinstance(c.cover, (tuple, list, set)) else set()
+        for n in _walk_own(info.node):
+            if isinstance(n, (_ast.Return, _ast.Raise)) and n.lineno not in reached \
+                    and (n.lineno - info.node.lineno) not in allowed:
+                rep.unsupported.append('vacuity guard: the %s statement at line %d (def + %d) is not reached by any '
+                                       'satisfiable path' % ('return' if isinstance(n, _ast.Return) else 'raise',
+                                                             n.lineno, n.lineno - info.node.lineno))
     rep.wall = time.time() - t0
     rep.deps_sha = _deps_sha(reg, c, rep)
     return rep
